@@ -279,8 +279,8 @@ def run_world_once(trace: dict, schedule_seed: int, schedule, build=None):
 def natural_world_failure(trace: dict, sim, outs) -> bool:
     for r in sim.ranks:
         if r.exc is not None:
-            name, msg = type(r.exc).__name__, str(r.exc)
-            if name in ("PreconditionerValueError", "ValueError") and (
+            msg = str(r.exc)
+            if isinstance(r.exc, ValueError) and (
                 "factor matrix" in msg or "exceeded the allowed tolerance" in msg or "eigenvectors" in msg
             ):
                 # diverged trajectory? (overflow with finite gradients)
